@@ -51,7 +51,9 @@ def main():
         hz = (5 if s["n"] <= 3 else 4) if chk.tier == "quick" else 6
         for st0 in pick:
             tasks.append({"sc": i, "st0": st0, "horizon": hz, "tmin": 3 if len(tasks) % 6 == 0 else 0,
-                          "infl_kind": ("set", "list", "iterator", "generator")[len(tasks) % 4]})
+                          "infl_kind": ("set", "list", "iterator", "generator")[len(tasks) % 4],
+                          "labels": ("str", "ints", "str", "falsy", "str")[len(tasks) % 5],
+                          "ret_subset": (0, 0, 1, 2, 3)[len(tasks) % 5 if len(tasks) % 3 == 0 else 0]})
     done = common.pool_run(complexc.run_scenario, tasks, lambda r: bool(r["problems"]))
     for t, r in done:
         chk.cov["evaluations"] += r["leaves"] + r["arr"]
